@@ -276,6 +276,9 @@ class UnionMarshaller(AbstractMarshaller[UnionT], tp.Generic[UnionT]):
         super().__init__(t, context, var=var)
         self.stack = inspection.args(t, evaluate=True)
         self.nullable = inspection.isoptionaltype(t)
+        if self.nullable:
+            # `None` is passed through below, its (no-op) routine would accept anything.
+            self.stack = (*(a for a in self.stack if a not in (None, type(None))),)
         self.ordered_routines = [self.context[typ] for typ in self.stack]
 
     def __call__(self, val: UnionT) -> serdes.MarshalledValueT:
